@@ -764,11 +764,17 @@ func (vc *FnVC) applyContract(fc *FuncContract, sig *types.Signature, args []Val
 		preEnv2.old = pre
 		var cs []string
 		for _, cl := range fc.Assuming {
+			if !vc.clauseApplies(cl) {
+				continue
+			}
 			cs = append(cs, vc.trBool(cl.E, &preEnv2))
 		}
 		scope = and(cs...)
 	}
 	for _, cl := range fc.Ensures {
+		if !vc.clauseApplies(cl) {
+			continue
+		}
 		vc.assume(implies(scope, vc.trBool(cl.E, &post)))
 	}
 	for _, cl := range fc.Defines {
